@@ -3,6 +3,7 @@
   exactly once, intact.  Helper lemmas first, property theorems below the line.
 -/
 import Klong.Model.C20
+import Klong.Props.C20Json
 namespace Klong.C20
 open Klong.Wire
 
@@ -553,5 +554,47 @@ theorem encode_pinned_fails :
     (encode false (.arr [.pyint 1, .npint 2])).isNone = true ∧
     (encode true (.arr [.pyint 1, .npint 2])).isSome = true := by
   decide
+
+/-! ------------------------------------------------------------------------------------
+  ## Property theorems (C20) — JSON text level (`WF`: every real is a JSON number literal,
+  which is what `repr(float)` produces; helper lemmas in Props/C20Json.lean)
+------------------------------------------------------------------------------------- -/
+
+/-- **parse_render**: `json.loads(json.dumps(j)) = j` — for every JSON value (any nesting, any
+    Unicode string including escapes and surrogate pairs, any integer). -/
+theorem parse_render (j : JVal) (hw : WF j) : parse (render j) = some j := parse_render_wf j hw
+
+/-- **json_roundtrip**: for every sendable Klong value (Python and numpy integers, reals,
+    strings, arrays of any nesting, dictionaries), the text `ws(x)` puts on the wire decodes to
+    the JSON reading of the value. -/
+theorem json_roundtrip (v : KVal) (hs : sendable v = true) (hw : WF (jsonView v)) :
+    (send true v).bind parse = some (jsonView v) := by
+  simp [send, encode_sendable v hs, parse_render _ hw]
+
+/-- **ws_delivers_rendered**: any sequence of JSON values (none a bare null) pushed as their JSON
+    texts is handed to `.ws.m` value by value, once each, in order. -/
+theorem ws_delivers_rendered (raises : Nat → JVal → Bool) (h : Nat) (js : List JVal)
+    (hw : ∀ j ∈ js, WF j) (hn : ∀ j ∈ js, Ws.isNull j = false)
+    (hr : ∀ j ∈ js, raises h j = false) :
+    Ws.run raises { alive := true, handler := h } (js.map fun j => .frame (render j)) =
+      ({ alive := true, handler := h }, js.map fun j => (h, j)) := by
+  induction js with
+  | nil => rfl
+  | cons j t ih =>
+    have hl := Ws.listen_clean raises { alive := true, handler := h } (render j) j rfl
+      (parse_render j (hw j (by simp))) (hn j (by simp)) (hr j (by simp))
+    have := ih (fun x hx => hw x (by simp [hx])) (fun x hx => hn x (by simp [hx]))
+      (fun x hx => hr x (by simp [hx]))
+    simp only [List.map_cons, Ws.run, hl, this, List.cons_append, List.nil_append]
+
+/-- non-vacuity: a nested value with a numpy scalar, an escaped string and a dictionary -/
+example : sendable (.arr [.npint 2, .str "k", .dict [("k", .arr [.pyint (-3)])]]) = true ∧
+    WF (jsonView (.arr [.npint 2, .str "k", .dict [("k", .arr [.pyint (-3)])]])) := by
+  refine ⟨by decide, ?_⟩
+  simp [jsonView, jsonViewL, jsonViewD, WF, WFL, WFO]
+
+/-- non-vacuity of `WF` on reals: `1.5`, `-2.5e-07` are number literals, `1.` is not -/
+example : validNum ['1', '.', '5'] = true ∧ validNum ['-', '2', '.', '5', 'e', '-', '0', '7'] = true ∧
+    validNum ['1', '.'] = false := by decide
 
 end Klong.C20
